@@ -62,7 +62,17 @@ def fam_member5(seed, i, tier):
     return fam_member(seed, i, tier, s5free=True)
 
 
-FAMILIES = {"core": fam_core, "crash": fam_crash, "reads": fam_reads, "member": fam_member, "member5": fam_member5}
+def fam_healthy(seed, i, tier):
+    """a random prelude, then leader + majority kept in prompt contact while the adversary owns the minority"""
+    rng = random.Random(sseed(seed, "healthy", i))
+    nv = rng.choice([3, 3, 3, 5])
+    return {"name": "healthy-%d-%d" % (seed, i), "family": "healthy", "voters": IDS[:nv], "controlled": True, "auto": False,
+            "heal": True, "heal_et": 60,
+            "random": {"seed": sseed(seed, "healthy.r", i), "steps": rng.choice([40, 80, 150]), "crashes": rng.random() < 0.3,
+                       "w": {"submit": 6, "fire": 10, "hb": 6}, "healthy_steps": rng.choice([60, 120])}}
+
+
+FAMILIES = {"healthy": fam_healthy, "core": fam_core, "crash": fam_crash, "reads": fam_reads, "member": fam_member, "member5": fam_member5}
 
 # ---- API programs (C18): enumerated by TLC from Api.tla ------------------------------------
 
@@ -190,7 +200,7 @@ def corpus(names):
 def scen_stats(evs):
     st = {"leaders": set(), "crashes": 0, "applies": 0, "appliers": set(), "truncates": 0, "ok_writes": 0, "ok_reads": 0,
           "votes": 0, "cand_terms": {}, "events": len(evs), "restarts": 0, "nonleader_reads": 0, "ae_rejects": 0,
-          "spec_steps": 0, "spec_matched": 0, "spec_drift": 0, "api_calls": 0, "cfg_appends": 0}
+          "spec_steps": 0, "spec_matched": 0, "spec_drift": 0, "api_calls": 0, "cfg_appends": 0, "healthy_fires": 0, "in_healthy": False}
     for e in evs:
         ev = e["ev"]
         if ev == "status" and e["role"] == 0:
@@ -208,6 +218,10 @@ def scen_stats(evs):
             st["appliers"].add(e["node"])
         elif ev == "log_truncate":
             st["truncates"] += 1
+        elif ev == "healthy":
+            st["in_healthy"] = e["on"]
+        elif ev == "fire" and st["in_healthy"]:
+            st["healthy_fires"] += 1
         elif ev == "log_append" and e.get("ctx") == "" and e["entries"] and e["entries"][0]["k"] == 2 and e["entries"][0]["i"] > 1:
             st["cfg_appends"] += 1
         elif ev == "return" and e.get("res") == "ok" and e.get("call") == "submit":
@@ -237,6 +251,7 @@ RULES = {
     "C08": ("votes were requested in >= 2 terms or a voter crashed", lambda s: len(s["cand_terms"]) >= 2 or s["crashes"] >= 1),
     "C14": ("a crash at a storage-operation boundary followed by a restart", lambda s: s["crashes"] >= 1 and s["restarts"] >= 1),
     "C09": ("a membership change was appended and a leader change happened", lambda s: s["cfg_appends"] >= 1 and len(s["leaders"]) >= 2),
+    "C16": ("a healthy period was established and a minority node's timer fired in it", lambda s: s["healthy_fires"] >= 1),
     "C15": ("at heal time some node was down, behind the leader or in a stale term", lambda s: s["crashes"] >= 1 or s["truncates"] >= 1 or len(s["leaders"]) >= 2),
     "C18": ("an API program of at least two calls was executed", lambda s: s["api_calls"] >= 2),
 }
@@ -257,6 +272,7 @@ PROPS = {
     "C12": dict(storage=True),
     "C13": dict(storage=True),
     "C15": dict(fams=[("core", 2), ("crash", 3)], corpus=["core", "crash"], mc="MC_core3"),
+    "C16": dict(fams=[("healthy", 6)], corpus=["healthy"], mc=None),
     "C18": dict(fams=[("core", 1)], corpus=["api"], api=True, mc=None),
 }
 
